@@ -118,7 +118,7 @@ func NewNodeConf(id string, join []string) *config.Config {
 	conf.Cluster.AbortIfJoinFails = false
 	conf.Cluster.JoinTimeout = 2 * time.Second
 	conf.Cluster.Gossip.BindAddr = "127.0.0.1:0"
-	conf.Cluster.Gossip.Interval = 40 * time.Millisecond
+	conf.Cluster.Gossip.Interval = 100 * time.Millisecond
 	conf.Proxy.AccessLog.Disable = true
 	conf.GracePeriod = 10 * time.Second
 	return conf
@@ -186,6 +186,14 @@ func (cl *TCluster) Stop() {
 		h.Close()
 	}
 	cl.holders = nil
+}
+
+// WaitRoutable waits until from's routing table lists to as active with upstreams for ep.
+func WaitRoutable(from, to *TNode, ep string, d time.Duration) bool {
+	return Eventually(d, func() bool {
+		n, ok := from.Srv.ClusterState().Node(to.ID)
+		return ok && n.Status == "active" && n.Endpoints[ep] > 0
+	})
 }
 
 // Live returns the running nodes.
